@@ -487,6 +487,8 @@ def gen_case(rng, maxlen, hazard=0.12):
         emit(["NewDs"])
     if R() < 0.3:
         _shared_source_scenario(rng, w, emit)
+    elif R() < 0.2:
+        _add_then_reconstruct_scenario(rng, w, emit)
 
     target = len(ops) + rng.randint(5, maxlen)
     guard = 0
@@ -580,6 +582,67 @@ def _shared_source_scenario(rng, w, emit):
         else:
             emit(["NewNs", False])
             emit(["Unify", d, len(w.nss) - 1, True])
+
+
+def _add_then_reconstruct_scenario(rng, w, emit):
+    """a list whose trees already refer to the list's namespace but still need their taxa re-mapped: one tree
+    appended with the default 'migrate' strategy, a second one carrying equal labels (exactly, or up to case)
+    appended with taxon_import_strategy='add' (label-equal taxa side by side in the namespace); then one of the
+    collection-level reconstructions: reconstruct_taxon_namespace(unify_taxa_by_label=True), migrate_taxon_namespace
+    to the list's OWN namespace, DataSet.unify_taxon_namespaces(namespace of the list)"""
+    R = rng.random
+    pool = w.pool
+    if len(w.nss) < 4 and R() < 0.5:
+        emit(["NewNs", R() < 0.3])
+        n = len(w.nss) - 1
+    else:
+        n = rng.randrange(len(w.nss))
+    emit(["NewList", n])
+    l = len(w.lists) - 1
+    labs = list(range(len(pool)))
+    rng.shuffle(labs)
+    labs = labs[:rng.randint(2, 4)]
+    first = True
+    for _ in range(rng.choice([2, 2, 3])):
+        emit(["NewNs", R() < 0.3])
+        s_ = len(w.nss) - 1
+        mine = []
+        for x in labs:
+            if first or R() < 0.75:
+                y = x
+                if not first and R() < 0.3:
+                    alts = [i for i, q in enumerate(pool) if q.lower() == pool[x].lower()]
+                    y = rng.choice(alts)
+                emit(["NewTaxon", s_, y])
+                mine.append(len(w.taxa()) - 1)
+        if not first and R() < 0.5:
+            extra = [i for i in range(len(pool)) if i not in labs]
+            if extra:
+                emit(["NewTaxon", s_, rng.choice(extra)])
+                mine.append(len(w.taxa()) - 1)
+        if not mine:
+            continue
+        rng.shuffle(mine)
+        emit(["MkTree", s_, mine])
+        t = len(w.trees) - 1
+        if first:
+            emit(["Append", l, t, ["SMigrate", True]])
+        elif R() < 0.5:
+            emit(["Append", l, t, ["SAdd"]])
+        else:
+            emit(["Insert", l, rng.choice([0, 1, -1, 5]), t, ["SAdd"]])
+        first = False
+    x = R()
+    if x < 0.3:
+        emit(["ReconstructList", l, True])
+    elif x < 0.55:
+        emit(["MigrateList", l, n, True])
+    elif x < 0.85:
+        emit(["NewDs"])
+        d = len(w.dss) - 1
+        emit(["DsAdd", d, ["ObjList", l], R() < 0.3])
+        emit(["Unify", d, n, R() < 0.8])
+    # else: left to the random tail of the history
 
 
 def _pick(rng, w, hazard):
@@ -922,12 +985,52 @@ def oracle(case, obs):
             u = _unification(pool, op, prev_dump, dump)
             if u:
                 return ("after step %d %s: %s" % (step, op, u[0]), u[1] + ":" + op[0])
+        if o["out"][0] == "OUnit":
+            u = _list_unified(pool, op, dump)
+            if u:
+                return ("after step %d %s: %s" % (step, op, u[0]), u[1] + ":" + op[0])
         if prev_dump is not None:
             u = _route_members(pool, op, prev_dump, dump) or _clone_label_map(pool, op, prev_dump, dump)
             if u:
                 return ("after step %d %s (outcome %s): %s" % (step, op, o["out"], u[0]), u[1] + ":" + op[0])
         prev = cur
         prev_dump = dump
+    return None
+
+
+def _list_unified(pool, op, after):
+    """TreeList.reconstruct_taxon_namespace(unify_taxa_by_label=True), TreeList.migrate_taxon_namespace(ns,
+    unify_taxa_by_label=True) and DataSet.unify_taxon_namespaces re-map EVERY member tree by label, also the
+    trees that already refer to the list's namespace object (e.g. after append(..., taxon_import_strategy='add')
+    left label-equal taxa side by side): afterwards, over all trees of the list, labels equal under the
+    namespace's case rule sit on ONE Taxon object, and every node taxon is a member of the namespace."""
+    name = op[0]
+    if name == "ReconstructList" and op[2]:
+        ls = [op[1]]
+    elif name == "MigrateList" and op[3]:
+        ls = [op[1]]
+    elif name == "Unify":
+        ls = list(after["dss"][op[1]][2])
+    else:
+        return None
+    lab = after["lab"]
+    for li in ls:
+        n, members = after["lists"][li]
+        cs, ns_members = after["ns"][n]
+        keyf = (lambda x: pool[lab[x]]) if cs else (lambda x: pool[lab[x]].lower())
+        seen = {}
+        for pos, tr in enumerate(members):
+            tn, refs = after["trees"][tr]
+            for x in refs:
+                if x not in ns_members:
+                    return ("tree at position %d of list %d carries taxon %r (#%d) that is not a member of the list's "
+                            "namespace %d" % (pos, li, pool[lab[x]], x, n), "list-not-reconstructed")
+                y = seen.setdefault(keyf(x), x)
+                if y != x:
+                    return ("the trees of list %d carry label %r on two different Taxon objects (#%d %r and #%d %r) of "
+                            "namespace %d (%s) although every member tree was to be re-mapped by label"
+                            % (li, keyf(x), y, pool[lab[y]], x, pool[lab[x]], n,
+                               "case-sensitive" if cs else "case-insensitive"), "list-not-unified")
     return None
 
 
@@ -1360,8 +1463,23 @@ def fixed_cases():
     yield H(["NewDs"], ["DsAdd", 0, ["ObjList", 0], False], ["DsAdd", 0, ["ObjList", 1], False], ["Append", 1, 1, ["SMigrate", True]],
             ["Append", 0, 0, ["SMigrate", True]], ["Unify", 0, None, True], ["Unify", 0, 2, False], ["DsReadFasta", 0, None, [0, 4]],
             ["DsReadTrees", 0, "Nexus", True, None, [[1, 4]], 2], ["DsNewList", 0, 0], ["DsNewMat", 0, None], ["Detach", 0], ["DsNewList", 0, None])
+    for c in add_then_reconstruct_cases():
+        yield c
     yield H(["NewMat", 0], ["NewSeq", 0, 0], ["SetRow", 0, ["KeyLabel", 4]], ["SetRow", 0, ["KeyIndex", -1]], ["SetRow", 0, ["KeyTaxon", 2]],
             ["ReconstructMat", 0, True], ["ReconstructMat", 0, False], ["UpdateMat", 0], ["MigrateMat", 0, 1, False], ["MigrateMat", 0, 2, True], ["PurgeMat", 0])
+
+
+def add_then_reconstruct_cases():
+    """append(tree1) ; append(tree2 with equal labels, taxon_import_strategy='add') ; collection-level
+    reconstruction by each of the three routes (on EX_BASE: list 0 in the case-insensitive ns0 holds A, B;
+    tree 1 of ns1 carries a, C and tree 2 of the case-sensitive ns2 carries A, a)"""
+    H = lambda *ops: {"pool": P6, "ops": EX_BASE + [list(o) for o in ops]}
+    pre = [["Append", 0, 0, M1], ["Append", 0, 1, ["SAdd"]], ["Append", 0, 2, ["SAdd"]]]
+    yield H(*(pre + [["ReconstructList", 0, True]]))
+    yield H(*(pre + [["MigrateList", 0, 0, True]]))
+    yield H(*(pre + [["NewDs"], ["DsAdd", 0, ["ObjList", 0], False], ["Unify", 0, 0, True]]))
+    yield H(*(pre + [["NewDs"], ["DsAdd", 0, ["ObjList", 0], True], ["Unify", 0, 0, False]]))
+    yield H(*(pre + [["ReconstructList", 0, False], ["MigrateList", 0, 0, False], ["ReconstructList", 0, True]]))
 
 
 def exhaustive_cases():
@@ -1403,8 +1521,9 @@ def search(ctx, budget_s):
     t0 = time.time()
     rng = random.Random(ctx.seed + 4711)
     n = 0
+    first = list(add_then_reconstruct_cases())
     while time.time() - t0 < budget_s and n < 20000:
-        case = gen_case(rng, 20)
+        case = first[n] if n < len(first) else gen_case(rng, 20)
         obs = observe(case)
         v = oracle(case, obs)
         n += 1
@@ -1525,6 +1644,10 @@ def run(tier, seed, replay=None):
                       rule="operation histories generated online against the live library (set-up of 2-3 namespaces with "
                            "overlapping / disjoint / case-variant labels, trees, lists, a matrix, a data set; then 5..16 "
                            "(quick) / 5..34 (thorough) further operations, 8% / 5% of the choices deliberately hazardous); "
-                           "plus 21 fixed histories (the witnesses of the `_refuted` theorems, the non-vacuity history, one history per group of call sites) for the call sites named in the property; thorough adds every history of length <= 2 over a 53-op alphabet on a prepared state (cut at the first violating step); non-trivial = >= 6 steps, >= 2 "
+                           "a fifth of the set-ups without the shared-source scenario add the history shape append(tree, migrate) ; "
+                           "append(tree with equal labels, taxon_import_strategy='add') ; reconstruct_taxon_namespace(unify) / "
+                           "migrate_taxon_namespace(own namespace) / DataSet.unify_taxon_namespaces(namespace of the list), after "
+                           "which equal labels must sit on one Taxon over all trees of the list; "
+                           "plus 26 fixed histories (the witnesses of the `_refuted` theorems, the non-vacuity history, one history per group of call sites) for the call sites named in the property; thorough adds every history of length <= 2 over a 53-op alphabet on a prepared state (cut at the first violating step); non-trivial = >= 6 steps, >= 2 "
                            "namespaces and at least one step that re-mapped or cloned a tree / matrix into a namespace; "
                            "distinct by full case content")
